@@ -117,6 +117,7 @@ def step (s : Abs) (op : Op) : Option (Abs × Option Int) :=
   | .aget v i => if v < 2 then liftA s v (get (s.getA v) i) else none
   | .afront v => if v < 2 then liftA s v (front (s.getA v)) else none
   | .aback v => if v < 2 then liftA s v (back (s.getA v)) else none
+  | .aeq v w => if v < 2 ∧ w < 2 then some (s, some (if s.getA v = s.getA w then 1 else 0)) else none
 
 /-- run a history on the reference sequences (operations whose precondition fails are skipped) -/
 def run (s : Abs) : List Op → Abs
